@@ -22,17 +22,36 @@ def parseRecord (txt : List Char) : String :=
   let r := parseChunks [txt]
   Driver.Parse.showStatuses (r.trace ++ [r.status]) ++ "/" ++ toString r.exprs.length
 
-def alphabet (name : String) : Option (List Char) :=
-  if name == "A" then some "()[]{}%^~@:;,.-+1a\"'`/#\\ \n".toList
-  else if name == "B" then some "(){}[]:\"a1 \\.-".toList
+/-- an enumeration alphabet: tokens, how they are joined, and what surrounds the sequence
+(the same tables as `crashAlphabets` in harness/ch_crash.go) -/
+structure Alphabet where
+  pre : List Char := []
+  sep : List Char := []
+  suf : List Char := []
+  toks : Array (List Char)
+
+def charAlphabet (s : String) : Alphabet := { toks := (s.toList.map fun c => [c]).toArray }
+
+def alphaA : String := "()[]{}%^~@:;,.-+1a\"'`/#\\ \n"
+
+def seqToks : Array (List Char) :=
+  #["a", "b", "1", "=", ":=", "\\", "(", ")", "[", "]", "'", ":", "&", "*"].map String.toList
+
+def alphabet (name : String) : Option Alphabet :=
+  if name == "A" then some (charAlphabet alphaA)
+  else if name == "B" then some (charAlphabet "(){}[]:\"a1 \\.-")
+  else if name == "C" then some (charAlphabet (alphaA ++ "=&$?!*<>|"))
+  else if name == "T" then some { pre := ['('], sep := [' '], suf := [')'], toks := seqToks }
+  else if name == "U" then some { pre := ['['], sep := [' '], suf := [']'], toks := seqToks }
+  else if name == "V" then some { pre := ['{'], sep := [' '], suf := ['}'], toks := seqToks }
   else none
 
 /-- string number `idx` of length `len` (base-|alpha| digits, most significant first) -/
-def enumString (alpha : Array Char) (len : Nat) (idx : Nat) : List Char :=
-  let rec go : Nat → Nat → List Char → List Char
+def enumString (alpha : Alphabet) (len : Nat) (idx : Nat) : List Char :=
+  let rec go : Nat → Nat → List (List Char) → List (List Char)
     | 0, _, acc => acc
-    | k + 1, i, acc => go k (i / alpha.size) (alpha[i % alpha.size]! :: acc)
-  go len idx []
+    | k + 1, i, acc => go k (i / alpha.toks.size) (alpha.toks[i % alpha.toks.size]! :: acc)
+  alpha.pre ++ (alpha.sep.intercalate (go len idx [])) ++ alpha.suf
 
 def hashMod : Nat := 1000000007
 
@@ -40,7 +59,7 @@ def hashStep (h : Nat) (rec : String) : Nat :=
   let h := rec.toList.foldl (fun h c => (h * 131 + c.toNat) % hashMod) h
   (h * 131 + 10) % hashMod
 
-def enumHash (alpha : Array Char) (len : Nat) : Nat → Nat → Nat → Nat
+def enumHash (alpha : Alphabet) (len : Nat) : Nat → Nat → Nat → Nat
   | 0, _, h => h
   | n + 1, i, h => enumHash alpha len n (i + 1) (hashStep h (parseRecord (enumString alpha len i)))
 
@@ -91,12 +110,16 @@ def handle (toks : List String) : String :=
   match toks with
   | ["s", _, c] =>
     match toChars? c with
-    | some txt => s!"P:{parseRecord txt} {prologueRecord txt}\t-"
+    | some txt =>
+      -- the parser model re-measures its pending input at every token wait: quadratic in the
+      -- text length; long texts (mutated corpus scripts) are compared by the `parse` channel of
+      -- C13 instead, here only texts up to 300 runes
+      if txt.length > 300 then "P:* G:*\t-" else s!"P:{parseRecord txt} {prologueRecord txt}\t-"
     | none => "bad-op\t-"
   | ["e", a, l, f, t] =>
     match alphabet a, l.toNat?, f.toNat?, t.toNat? with
     | some al, some len, some from_, some to =>
-      s!"n={to - from_} h={enumHash al.toArray len (to - from_) from_ 0}\t-"
+      s!"n={to - from_} h={enumHash al len (to - from_) from_ 0}\t-"
     | _, _, _, _ => "bad-op\t-"
   | _ => "-\t-"
 
